@@ -79,3 +79,129 @@ Theorem C03_mac_c_padded : forall cd ca, ciphers_ok cd ca -> forall kbak hs data
   c_generate_mac cd ca kbak hs data = Ok (spec_mac_c cd kbak hs data).
 Proof. exact mac_c_padded. Qed.
 Print Assumptions C03_mac_c_padded.
+
+(* ---------------- validation of the Spec ----------------
+   The definitions of Spec/CMAC.v and Spec/TR31.v are run (vm_compute, with the
+   executable AES / Triple DES of Cipher/) on published vectors.  These Examples
+   do not involve the model. *)
+From Psec Require Import Cipher.AES Cipher.DES Cipher.Toy.
+
+Definition rfc4493_msg : list N :=
+  [107; 193; 190; 226; 46; 64; 159; 150; 233; 61; 126; 17; 115; 147; 23; 42; 174; 45; 138; 87; 30; 3; 172; 156; 158; 183; 111; 172; 69; 175; 142; 81; 48; 200; 28; 70; 163; 92; 228; 17; 229; 251; 193; 25; 26; 10; 82; 239; 246; 159; 36; 69; 223; 79; 155; 23; 173; 43; 65; 123; 230; 108; 55; 16].
+
+(* RFC 4493 section 4 / SP 800-38B D.1: AES-128, subkeys and the four examples (0, 16, 40, 64 bytes) *)
+Example C03_spec_rfc4493 :
+  let K := [43; 126; 21; 22; 40; 174; 210; 166; 171; 247; 21; 136; 9; 207; 79; 60] in
+  cmac_K1 real_aes K = [251; 238; 214; 24; 53; 113; 51; 102; 124; 133; 224; 143; 114; 54; 168; 222] /\
+  cmac_K2 real_aes K = [247; 221; 172; 48; 106; 226; 102; 204; 249; 11; 193; 30; 228; 109; 81; 59] /\
+  cmac real_aes K (firstn 0 rfc4493_msg) = [187; 29; 105; 41; 233; 89; 55; 40; 127; 163; 125; 18; 155; 117; 103; 70] /\
+  cmac real_aes K (firstn 16 rfc4493_msg) = [7; 10; 22; 180; 107; 77; 65; 68; 247; 155; 221; 157; 208; 74; 40; 124] /\
+  cmac real_aes K (firstn 40 rfc4493_msg) = [223; 166; 103; 71; 222; 154; 230; 48; 48; 202; 50; 97; 20; 151; 200; 39] /\
+  cmac real_aes K (firstn 64 rfc4493_msg) = [81; 240; 190; 191; 126; 59; 157; 146; 252; 73; 116; 23; 121; 54; 60; 254].
+Proof. vm_compute. repeat split; reflexivity. Qed.
+
+(* SP 800-38B D.2: AES-192 (0 and 40 bytes) *)
+Example C03_spec_sp800_38b_aes192 :
+  let K := [142; 115; 176; 247; 218; 14; 100; 82; 200; 16; 243; 43; 128; 144; 121; 229; 98; 248; 234; 210; 82; 44; 107; 123] in
+  cmac real_aes K [] = [209; 125; 223; 70; 173; 170; 205; 229; 49; 202; 196; 131; 222; 122; 147; 103] /\
+  cmac real_aes K (firstn 40 rfc4493_msg) = [138; 29; 229; 190; 46; 179; 26; 173; 8; 154; 130; 230; 238; 144; 139; 14].
+Proof. vm_compute. split; reflexivity. Qed.
+
+(* SP 800-38B D.4 / D.5: three-key and two-key TDEA (0, 8, 20, 32 bytes) *)
+Example C03_spec_sp800_38b_tdes3 :
+  let K := [138; 168; 59; 248; 203; 218; 16; 98; 11; 193; 191; 25; 251; 182; 205; 88; 188; 49; 61; 74; 55; 28; 168; 181] in
+  cmac_K1 real_tdes K = [145; 152; 233; 211; 20; 230; 83; 95] /\
+  cmac_K2 real_tdes K = [35; 49; 211; 166; 41; 204; 166; 165] /\
+  cmac real_tdes K (firstn 0 rfc4493_msg) = [183; 166; 136; 225; 34; 255; 175; 149] /\
+  cmac real_tdes K (firstn 8 rfc4493_msg) = [142; 143; 41; 49; 54; 40; 55; 151] /\
+  cmac real_tdes K (firstn 20 rfc4493_msg) = [116; 61; 219; 224; 206; 45; 194; 237] /\
+  cmac real_tdes K (firstn 32 rfc4493_msg) = [51; 230; 177; 9; 36; 0; 234; 229].
+Proof. vm_compute. repeat split; reflexivity. Qed.
+
+Example C03_spec_sp800_38b_tdes2 :
+  let K := [76; 241; 81; 52; 162; 133; 13; 213; 138; 61; 16; 186; 128; 87; 13; 56] in
+  cmac real_tdes K (firstn 0 rfc4493_msg) = [189; 46; 191; 154; 59; 160; 3; 97] /\
+  cmac real_tdes K (firstn 8 rfc4493_msg) = [79; 242; 171; 129; 60; 83; 206; 131] /\
+  cmac real_tdes K (firstn 20 rfc4493_msg) = [98; 221; 27; 71; 25; 2; 189; 78] /\
+  cmac real_tdes K (firstn 32 rfc4493_msg) = [49; 177; 228; 49; 218; 188; 78; 184].
+Proof. vm_compute. repeat split; reflexivity. Qed.
+
+(* third-party TR-31 key blocks (the known-value vectors of the repository's
+   test-suite, among them the examples of TR-31:2018): the Spec alone opens them *)
+(* B0080P0TE00E000094B420079CC80BA3461F86FE26EFC4A3B8E4FA4C5F5341176EED7B727B8A248E
+   KBPK DD7515F2BFC17F85CE48F3CA25CB21F6, key 3F419E1CB7079442AA37474C2EFBF8B8 *)
+Example C03_spec_vector_B_tdes2 :
+  option_map spec_key_of (spec_open_b real_tdes
+    [221; 117; 21; 242; 191; 193; 127; 133; 206; 72; 243; 202; 37; 203; 33; 246]
+    [66; 48; 48; 56; 48; 80; 48; 84; 69; 48; 48; 69; 48; 48; 48; 48]
+    [148; 180; 32; 7; 156; 200; 11; 163; 70; 31; 134; 254; 38; 239; 196; 163; 184; 228; 250; 76; 95; 83; 65; 23]
+    [110; 237; 123; 114; 123; 138; 36; 142])
+  = Some [63; 65; 158; 28; 183; 7; 148; 66; 170; 55; 71; 76; 46; 251; 248; 184].
+Proof. vm_compute. reflexivity. Qed.
+
+(* B0096M3TC00E0000C7C6FE86A5DE769C20DCA238C52341378B484D544A9764D43963C3B2824AE56C2D07A565DD3AB342
+   KBPK AAAAAAAAAAAAAAAABBBBBBBBBBBBBBBBCCCCCCCCCCCCCCCC, key CCCCCCCCCCCCCCCCDDDDDDDDDDDDDDDD *)
+Example C03_spec_vector_B_tdes3 :
+  option_map spec_key_of (spec_open_b real_tdes
+    [170; 170; 170; 170; 170; 170; 170; 170; 187; 187; 187; 187; 187; 187; 187; 187; 204; 204; 204; 204; 204; 204; 204; 204]
+    [66; 48; 48; 57; 54; 77; 51; 84; 67; 48; 48; 69; 48; 48; 48; 48]
+    [199; 198; 254; 134; 165; 222; 118; 156; 32; 220; 162; 56; 197; 35; 65; 55; 139; 72; 77; 84; 74; 151; 100; 212; 57; 99; 195; 178; 130; 74; 229; 108]
+    [45; 7; 165; 101; 221; 58; 179; 66])
+  = Some [204; 204; 204; 204; 204; 204; 204; 204; 221; 221; 221; 221; 221; 221; 221; 221].
+Proof. vm_compute. reflexivity. Qed.
+
+(* B0104B0TX12S0100KS1800604B120F9292800000BB68BE8680A400D9191AD4ECE45B6E6C0D21C4738A52190E248719E24B433627
+   KBPK 1D22BF32387C600AD97F9B97A51311AC, key E8BC63E5479455E26577F715D587FE68 *)
+Example C03_spec_vector_B_optional_block :
+  option_map spec_key_of (spec_open_b real_tdes
+    [29; 34; 191; 50; 56; 124; 96; 10; 217; 127; 155; 151; 165; 19; 17; 172]
+    [66; 48; 49; 48; 52; 66; 48; 84; 88; 49; 50; 83; 48; 49; 48; 48; 75; 83; 49; 56; 48; 48; 54; 48; 52; 66; 49; 50; 48; 70; 57; 50; 57; 50; 56; 48; 48; 48; 48; 48]
+    [187; 104; 190; 134; 128; 164; 0; 217; 25; 26; 212; 236; 228; 91; 110; 108; 13; 33; 196; 115; 138; 82; 25; 14]
+    [36; 135; 25; 226; 75; 67; 54; 39])
+  = Some [232; 188; 99; 229; 71; 148; 85; 226; 101; 119; 247; 21; 213; 135; 254; 104].
+Proof. vm_compute. reflexivity. Qed.
+
+(* D0112P0AE00E0000B82679114F470F540165EDFBF7E250FCEA43F810D215F8D207E2E417C07156A27E8E31DA05F7425509593D03A457DC34
+   KBPK 88E1AB2A2E3DD38C1FA039A536500CC8A87AB9D62DC92C01058FA79F44657DE6, key 3F419E1CB7079442AA37474C2EFBF8B8 *)
+Example C03_spec_vector_D_aes256 :
+  option_map spec_key_of (spec_open_d real_aes
+    [136; 225; 171; 42; 46; 61; 211; 140; 31; 160; 57; 165; 54; 80; 12; 200; 168; 122; 185; 214; 45; 201; 44; 1; 5; 143; 167; 159; 68; 101; 125; 230]
+    [68; 48; 49; 49; 50; 80; 48; 65; 69; 48; 48; 69; 48; 48; 48; 48]
+    [184; 38; 121; 17; 79; 71; 15; 84; 1; 101; 237; 251; 247; 226; 80; 252; 234; 67; 248; 16; 210; 21; 248; 210; 7; 226; 228; 23; 192; 113; 86; 162]
+    [126; 142; 49; 218; 5; 247; 66; 85; 9; 89; 61; 3; 164; 87; 220; 52])
+  = Some [63; 65; 158; 28; 183; 7; 148; 66; 170; 55; 71; 76; 46; 251; 248; 184].
+Proof. vm_compute. reflexivity. Qed.
+
+(* A0072P0TE00E0000F5161ED902807AF26F1D62263644BD24192FDB3193C730301CEE8701
+   KBPK 89E88CF7931444F334BD7547FC3F380C, key F039121BEC83D26B169BDCD5B22AAF8F *)
+Example C03_spec_vector_A_variant :
+  option_map spec_key_of (spec_open_c real_tdes
+    [137; 232; 140; 247; 147; 20; 68; 243; 52; 189; 117; 71; 252; 63; 56; 12]
+    [65; 48; 48; 55; 50; 80; 48; 84; 69; 48; 48; 69; 48; 48; 48; 48]
+    [245; 22; 30; 217; 2; 128; 122; 242; 111; 29; 98; 38; 54; 68; 189; 36; 25; 47; 219; 49; 147; 199; 48; 48]
+    [28; 238; 135; 1])
+  = Some [240; 57; 18; 27; 236; 131; 210; 107; 22; 155; 220; 213; 178; 42; 175; 143].
+Proof. vm_compute. reflexivity. Qed.
+
+(* C0096B0TX12S0100KS1800604B120F9292800000BFB9B689CB567E66FC3FEE5AD5F52161FC6545B9D60989015D02155C
+   KBPK B8ED59E0A279A295E9F5ED7944FD06B9, key EDB380DD340BC2620247D445F5B8D678 *)
+Example C03_spec_vector_C_optional_block :
+  option_map spec_key_of (spec_open_c real_tdes
+    [184; 237; 89; 224; 162; 121; 162; 149; 233; 245; 237; 121; 68; 253; 6; 185]
+    [67; 48; 48; 57; 54; 66; 48; 84; 88; 49; 50; 83; 48; 49; 48; 48; 75; 83; 49; 56; 48; 48; 54; 48; 52; 66; 49; 50; 48; 70; 57; 50; 57; 50; 56; 48; 48; 48; 48; 48]
+    [191; 185; 182; 137; 203; 86; 126; 102; 252; 63; 238; 90; 213; 245; 33; 97; 252; 101; 69; 185; 214; 9; 137; 1]
+    [93; 2; 21; 92])
+  = Some [237; 179; 128; 221; 52; 11; 194; 98; 2; 71; 212; 69; 245; 184; 214; 120].
+Proof. vm_compute. reflexivity. Qed.
+
+(* the premises of the theorems are satisfiable, and a concrete instance *)
+Example C03_ciphers_exist : ciphers_ok toy_tdes toy_aes.
+Proof. exact toy_ciphers_ok. Qed.
+
+Example C03_instance :
+  let kbpk := [1;2;3;4;5;6;7;8;9;10;11;12;13;14;15;16;17;18;19;20;21;22;23;24] in
+  b_derive toy_tdes toy_aes kbpk = Ok (spec_kdf_b toy_tdes kbpk) /\
+  d_derive toy_tdes toy_aes kbpk = Ok (spec_kdf_d toy_aes kbpk) /\
+  b_generate_mac toy_tdes toy_aes kbpk [66;48;48;56;48;80;48;84] [1;2;3;4;5;6;7;8]
+    = Ok (cmac toy_tdes kbpk ([66;48;48;56;48;80;48;84] ++ [1;2;3;4;5;6;7;8])).
+Proof. vm_compute. repeat split; reflexivity. Qed.
